@@ -90,7 +90,7 @@ pub fn batches(n: usize, pairs: bool) -> Vec<Vec<TriggerEvent>> {
     b
 }
 
-pub fn explore_product(pc: &Pcfg, depth: usize, deltas: &[i64], pairs: bool, max_states: usize) -> PRes {
+pub fn explore_product(pc: &Pcfg, depth: usize, deltas: &[i64], pairs: bool, max_states: usize, deadline: Option<std::time::Instant>) -> PRes {
     rng::set_menu(1, 1);
     let mut res = PRes { states: 0, transitions: 0, engaged: 0, nontrivial_states: 0, violation: None, sample: None, capped: false };
     let start = 1000u64;
@@ -140,6 +140,10 @@ pub fn explore_product(pc: &Pcfg, depth: usize, deltas: &[i64], pairs: bool, max
                     res.transitions += 1;
                     if res.transitions & 0xFFFF == 0 {
                         crate::supervise::beat();
+                        if deadline.map(|d| std::time::Instant::now() > d).unwrap_or(false) {
+                            res.capped = true;
+                            return res;
+                        }
                     }
                     let (Ok((ca, _)), Ok((sa, _))) = (&ra, &rb) else {
                         continue; // a panic is C01's business
@@ -229,47 +233,72 @@ pub const RULE: &str = "product BFS over (combined framework, solo framework), b
 pub fn worker(ctx: &WorkerCtx) -> WorkerOut {
     let q = ctx.quick();
     let cfgs = product_configs(q);
-    let depth = if q { 4 } else { 6 };
+    // every configuration to depth 4; thorough: then as many as a wall budget allows to depth 6 (reported as such)
+    let depth = 4;
+    let deep_depth = 6;
+    let deep_budget_s = 1500u64;
     let deltas: Vec<i64> = vec![0, 1];
-    let next = AtomicUsize::new(0);
-    let stop = AtomicBool::new(false);
     let crumbs = crate::supervise::global_crumbs();
     let only = ctx.only_unit;
     let t0 = std::time::Instant::now();
-    let results: Vec<Vec<(usize, PRes)>> = std::thread::scope(|sc| {
-        let hs: Vec<_> = (0..ctx.threads())
-            .map(|ti| {
-                let (next, stop, cfgs, deltas) = (&next, &stop, &cfgs, &deltas);
-                std::thread::Builder::new()
-                    .stack_size(64 << 20)
-                    .spawn_scoped(sc, move || {
-                        let mut out = vec![];
-                        loop {
-                            let i = next.fetch_add(1, Ordering::Relaxed);
-                            if i >= cfgs.len() || stop.load(Ordering::Relaxed) {
-                                break;
-                            }
-                            if only.is_some() && only != Some(i as u64) {
-                                continue;
+    let pass = |depth: usize, deadline: Option<std::time::Instant>| -> Vec<Vec<(usize, PRes)>> {
+        let next = AtomicUsize::new(0);
+        let stop = AtomicBool::new(false);
+        std::thread::scope(|sc| {
+            let hs: Vec<_> = (0..ctx.threads())
+                .map(|ti| {
+                    let (next, stop, cfgs, deltas) = (&next, &stop, &cfgs, &deltas);
+                    std::thread::Builder::new()
+                        .stack_size(64 << 20)
+                        .spawn_scoped(sc, move || {
+                            let mut out = vec![];
+                            loop {
+                                let i = next.fetch_add(1, Ordering::Relaxed);
+                                if i >= cfgs.len() || stop.load(Ordering::Relaxed) {
+                                    break;
+                                }
+                                if only.is_some() && only != Some(i as u64) {
+                                    continue;
+                                }
+                                if deadline.map(|d| std::time::Instant::now() > d).unwrap_or(false) {
+                                    break;
+                                }
+                                if let Some(c) = crumbs {
+                                    c.set(ti, i as u64);
+                                }
+                                let uses_time = fam::uses_blocking(&cfgs[i].combined);
+                                let r = explore_product(&cfgs[i], depth, if uses_time { deltas } else { &deltas[..1] }, false, 300_000, deadline);
+                                out.push((i, r));
                             }
                             if let Some(c) = crumbs {
-                                c.set(ti, i as u64);
+                                c.set(ti, u64::MAX);
                             }
-                            let uses_time = fam::uses_blocking(&cfgs[i].combined);
-                            let r = explore_product(&cfgs[i], depth, if uses_time { deltas } else { &deltas[..1] }, false, 300_000);
-                            out.push((i, r));
-                        }
-                        if let Some(c) = crumbs {
-                            c.set(ti, u64::MAX);
-                        }
-                        out
-                    })
-                    .unwrap()
-            })
-            .collect();
-        hs.into_iter().map(|h| h.join().unwrap()).collect()
-    });
+                            out
+                        })
+                        .unwrap()
+                })
+                .collect();
+            hs.into_iter().map(|h| h.join().unwrap()).collect()
+        })
+    };
+    let results = pass(depth, None);
+    let (mut deep_done, mut deep_states, mut deep_transitions) = (0usize, 0u64, 0u64);
+    let mut deep_violations: Vec<(usize, PRes)> = vec![];
+    if !q && only.is_none() {
+        let dl = std::time::Instant::now() + std::time::Duration::from_secs(deep_budget_s);
+        for (i, r) in pass(deep_depth, Some(dl)).into_iter().flatten() {
+            if !r.capped {
+                deep_done += 1;
+            }
+            deep_states += r.states;
+            deep_transitions += r.transitions;
+            if r.violation.is_some() {
+                deep_violations.push((i, r));
+            }
+        }
+    }
     let mut all: Vec<(usize, PRes)> = results.into_iter().flatten().collect();
+    all.extend(deep_violations);
     all.sort_by_key(|x| x.0);
     let (mut states, mut transitions, mut engaged, mut nontrivial, mut capped) = (0u64, 0u64, 0u64, 0u64, 0usize);
     let mut samples = vec![];
@@ -311,6 +340,7 @@ pub fn worker(ctx: &WorkerCtx) -> WorkerOut {
         "exhaustive": capped == 0 && reported.is_empty() && only.is_none(),
         "product_configurations": cfgs.len(), "depth_bound": depth, "time_steps_us": deltas, "configs_hitting_state_cap": capped,
         "transitions_in_which_the_subject_acted": engaged, "wall_s": t0.elapsed().as_secs_f64(),
+        "deeper_pass": {"depth_bound": deep_depth, "wall_budget_s": deep_budget_s, "configurations_completed": deep_done, "of": cfgs.len(), "states": deep_states, "transitions": deep_transitions, "note": "thorough tier only; configurations taken in index order until the budget ran out; the exhaustive claim is for depth_bound"},
     });
     let vacuous = if nontrivial < 1000 && only.is_none() && reported.is_empty() { Some(format!("only {nontrivial} non-trivial states")) } else { None };
     WorkerOut {
